@@ -81,20 +81,6 @@ Definition mismatch (c : case_t) : bool :=
           2 = a state-changing operation was not handed (for a filtered subscriber: one not led by
               the host), 3 = a filtered subscriber was handed a change led by the host,
           4 = the same (key, version, leaseholder) handed twice over the script. *)
-Fixpoint spec_accept (e : gmap N (Z * N)) (b : list op) : list op :=
-  match b with
-  | [] => []
-  | o :: r =>
-      let sup := match e !! o_key o with
-                 | None => true
-                 | Some (v, l) => if (o_ver o =? v)%Z then l <? o_lh o else (v <? o_ver o)%Z
-                 end in
-      if sup then o :: spec_accept (<[o_key o := (o_ver o, o_lh o)]> e) r else spec_accept e r
-  end.
-
-Definition obs_digests (o : obs) (n : N) : gmap N (Z * N) :=
-  list_to_map (map (fun x => (o_key x, (o_ver x, o_lh x))) (obs_eng_ops o n)).
-
 (* operations that changed node n's state in this step, per the rule on the observed pre-state *)
 Definition expected_plain (po no : obs) (msgs : list (list op)) (s : step_t) (n : N) : list op :=
   match s with
@@ -126,7 +112,7 @@ Definition expected_plain (po no : obs) (msgs : list (list op)) (s : step_t) (n 
 Definition expected_at (po no : obs) (msgs : list (list op)) (s : step_t) (n : N) : list op :=
   match s with
   | SFaulty fn g =>
-      if fn =? n then [] else
+      if (f_node fn =? n) && fault_hits_batch fn po (gstep_batch msgs po no n g) then [] else
       expected_plain po no msgs (match g with
                                  | GInject a b c => SInject a b c
                                  | GDeliver a b => SDeliver a b
@@ -180,6 +166,10 @@ Definition ss_step (po no : obs) (st : sstate) (s : step_t) (rs : list rsub) : s
                                 else ss_subs st
                | SRestart n => filter (fun kx => negb (kx.1.1 =? n) = true) (ss_subs st)
                | SStall n sb => delete (n, sb) (ss_subs st)
+               | SWriteCF n k lease del =>
+                   if ob_rc no =? 3 then
+                     filter (fun kx => negb (kx.1.1 =? obs_leaseholder po n k lease del) = true) (ss_subs st)
+                   else ss_subs st
                | _ => ss_subs st
                end in
   let seen1 := fold_left (fun acc (kf : N * N * bool) =>
@@ -188,7 +178,11 @@ Definition ss_step (po no : obs) (st : sstate) (s : step_t) (rs : list rsub) : s
                  let exp : list op := if (kf.2 : bool) then filter (fun o : op => negb (o_lh o =? n)) exp_all else exp_all in
                  <[kf.1 := default [] (acc !! kf.1) ++ map (fun o => (o_key o, o_ver o, o_lh o)) exp]> acc)
                (map_to_list (ss_subs st)) (ss_seen st) in
-  let seen2 := match s with SRestart n => filter (fun kx => negb (kx.1.1 =? n) = true) seen1 | _ => seen1 end in
+  let seen2 := match s with
+               | SRestart n => filter (fun kx => negb (kx.1.1 =? n) = true) seen1
+               | SWriteCF n k lease del =>
+                   if ob_rc no =? 3 then filter (fun kx => negb (kx.1.1 =? obs_leaseholder po n k lease del) = true) seen1 else seen1
+               | _ => seen1 end in
   let msgs1 := match s with SSnap n => if is_node po n then ss_msgs st ++ [obs_store po n] else ss_msgs st | _ => ss_msgs st end in
   SS subs1 seen2 msgs1.
 
